@@ -80,7 +80,7 @@ REQUIRED_REACH = ["hessian-path", "composite-x-tuple", "kwargs-normalised", "fac
                   "cell-subset", "jax-det-3x3", "jax-det-2x2", "jax-mul-matmat", "jax-mul-matvec",
                   "jax-prod-3", "np-inv-3x3", "np-inv-2x2", "np-curl-3d", "np-curl-2d-scalar", "np-curl-2d-vector",
                   "np-curl-attr", "np-div-attr", "np-div-trace", "np-div-1d", "point:none", "point:zero",
-                  "point:unit", "point:large"]
+                  "point:unit", "point:large", "complex-valued-form"]
 
 NMAX = 150          # dense finite differences only up to this many unknowns
 RT_RHS = 1e-11      # relative to the assembled absolute residual density
@@ -673,6 +673,64 @@ def fam_directed(ctx, k):
         ctx.nontrivial("directed", layout, names)
 
 
+def fam_complex(ctx, k):
+    """Complex-valued forms (NonlinearForm(dtype=complex128)) with complex coefficients at a real linearisation
+    point (the statement's "any differentiable nonlinear integrand"; lossy media, complex shifts): matrix and
+    negative residual against the hand-linearised complex BilinearForm / LinearForm; the part linear in the
+    unknown against ordinary complex assembly."""
+    import skfem
+    from skfem.autodiff import NonlinearForm
+    from skfem.autodiff.helpers import dot as jdot, grad as jgrad
+    from skfem.helpers import dot as ndot, grad as ngrad
+    rng = ctx.rng()
+    kind = ("tri", "quad", "line", "tet")[k % 4]
+    ename = {"tri": ("ElementTriP1", "ElementTriP2"), "quad": ("ElementQuad1", "ElementQuad2"),
+             "line": ("ElementLineP1", "ElementLineP2"), "tet": ("ElementTetP1", "ElementTetP1")}[kind][(k // 4) % 2]
+    rec = EL.by_name(ename)
+    mc, mesh, basis = make_basis(ctx, rng, kind, rec, ctx.scale(5, 12))
+    cplx = lambda: complex(rng.integers(-8, 9) / 4, rng.integers(1, 9) / 4 * rng.choice([-1, 1]))
+    a, b, c, dd = cplx(), cplx(), cplx(), cplx()
+    pw = int(rng.integers(2, 4))
+    linear_only = (k % 3 == 2)
+    if linear_only:
+        c = 0.0
+
+    def F(u, v, w):
+        return a * jdot(jgrad(u), jgrad(v)) + b * u * v + c * u ** pw * v - dd * v
+
+    def dF(u, v, w):
+        return a * ndot(ngrad(u), ngrad(v)) + b * u * v + c * pw * w["prev"] ** (pw - 1) * u * v
+
+    def R(v, w):
+        return a * ndot(ngrad(w["prev"]), ngrad(v)) + b * w["prev"] * v + c * w["prev"] ** pw * v - dd * v
+
+    N = basis.N
+    x = rng.uniform(-1, 1, size=N)
+    tag = {"layout": "complex-scalar", "elem": ename, "mesh": type(mesh).__name__, "power": pw,
+           "coefficients": [str(a), str(b), str(c), str(dd)]}
+    import warnings
+    with warnings.catch_warnings():
+        warnings.simplefilter("ignore")
+        J, rhs = NonlinearForm(F, dtype=np.complex128).assemble(basis, x=x)
+    A = skfem.BilinearForm(dF, dtype=np.complex128).assemble(basis, prev=basis.interpolate(x)).toarray()
+    r = skfem.LinearForm(R, dtype=np.complex128).assemble(basis, prev=basis.interpolate(x))
+    Jd = np.asarray(J.toarray())
+    sA = float(np.abs(A).max())
+    ctx.check("jacobian-vs-hand-linearised", np.iscomplexobj(Jd) and float(np.abs(Jd - A).max()) <= 1e-10 * sA,
+              mech="complex-form:jacobian-loses-complex-part" if not np.iscomplexobj(Jd) or
+              float(np.abs(Jd.real - A.real).max()) <= 1e-10 * sA else "complex-form:jacobian",
+              worst=float(np.abs(Jd - A).max()), scale=sA, dtype=str(Jd.dtype), **tag)
+    ctx.check("rhs-is-minus-residual", np.iscomplexobj(rhs) and float(np.abs(rhs + r).max()) <= 1e-10 * (float(np.abs(r).max()) + 1e-300),
+              mech="complex-form:residual", worst=float(np.abs(rhs + r).max()), **tag)
+    if linear_only:
+        A0 = skfem.BilinearForm(lambda u, v, w: a * ndot(ngrad(u), ngrad(v)) + b * u * v, dtype=np.complex128).assemble(basis).toarray()
+        ctx.close("linear-reduces-to-ordinary-assembly", Jd, A0, rtol=1e-10, scale=sA, mech="complex-form:linear-matrix", **tag)
+    ctx.reached("complex-valued-form")
+    if float(np.abs(A.imag).max()) > 0:
+        ctx.nontrivial("complex", ename, type(mesh).__name__, pw, linear_only)
+    ctx.sample(dict(tag, N=int(N)), per_family=1)
+
+
 # ===================================================================== Part B: helpers
 from .c20_helpers import fam_helpers_np, fam_helpers_jax, fam_helpers_fields, fam_helper_exports, fam_edge  # noqa: E402
 
@@ -689,6 +747,7 @@ FAMILIES = [
     Family("nl-energy", fam_energy, quick=8, thorough=128, budget={"quick": 30, "thorough": 500}),
     Family("nl-facet", fam_facet, quick=6, thorough=96, budget={"quick": 20, "thorough": 400}),
     Family("nl-linear", fam_linear, quick=8, thorough=128, budget={"quick": 20, "thorough": 400}),
+    Family("nl-complex", fam_complex, quick=8, thorough=160, budget={"quick": 30, "thorough": 400}),
     Family("nl-directed", fam_directed, quick=4, thorough=64, budget={"quick": 15, "thorough": 300}),
     Family("helpers-np", fam_helpers_np, quick=16, thorough=960, budget={"quick": 15, "thorough": 200}),
     Family("helpers-jax", fam_helpers_jax, quick=16, thorough=960, budget={"quick": 25, "thorough": 300}),
